@@ -118,7 +118,7 @@ class StochasticTopNRanker(Component[ItemList]):
 
         # scale the scores — with softmax, this is the equivalent of β.
         # see: https://en.wikipedia.org/wiki/Softmax_function
-        scores = scores[valid_mask] * self.config.scale
+        scores = scores[valid_mask].astype(np.float64) * self.config.scale
         match self.config.transform:
             case "linear":
                 lb = np.min(scores).item()
